@@ -285,7 +285,7 @@ impl Date {
         if !Month::contains(month) {
             panic!("invalid month");
         }
-        if day > itime::days_in_month(year, month) {
+        if day < 1 || day > itime::days_in_month(year, month) {
             panic!("invalid day");
         }
         let year = Year::new_unchecked(year);
